@@ -49,6 +49,14 @@ def simple_sel(prop, laws=(), extra=(), quick_scope='pairs'):
     return f
 
 
+def c08(tier):
+    law = lambda scope, n, docs, t=900: dict(kind='tlc', module='Gen_Select', label='law-compose-' + scope, constants=SEL(n, scope, docs), invariants=['LawCompose'], timeout=t)
+    if tier == 'quick':
+        return [law('triples', 2, 'small'), sel('pairs', 'C08', SEL(2, 'pairs', 'small'), ['Emit'])]
+    return [law('pairs', 2, 'full', 3600), law('triples', 3, 'small', 7200), sel('pairs', 'C08', SEL(2, 'pairs', 'full'), ['Emit'], timeout=3600),
+            sel('triples', 'C08', SEL(3, 'triples', 'full'), ['Emit'], timeout=7200)]
+
+
 def c14(tier):
     if tier == 'quick':
         return [sel('funcs', 'C14', SEL(2, 'triples', 'small', funcs=True, fset='small'), ['Emit'])]
@@ -436,7 +444,7 @@ CHECKS = {
     'C03': dict(stages=simple_sel('C03', ['LawFailsIffEmpty'], extra=[lambda: SLICES('C03'), lambda: traceB_eval(4000, 200000, 'C03', EVAL_ATTR)]), level='model_checking'),
     'C04': dict(stages=simple_sel('C04', extra=[lambda: filterproto(1), lambda: filt('filters', 'C04', 2, 2, 'arr', 'two'), lambda: traceB_eval(3000, 200000, 'C04', EVAL_ATTR)], quick_scope='triples'), level='model_checking'),
     'C07': dict(stages=c07, level='model_checking'),
-    'C08': dict(stages=simple_sel('C08', ['LawCompose']), level='model_checking'),
+    'C08': dict(stages=c08, level='model_checking'),
     'C11': dict(stages=c11, level='model_checking'),
     'C12': dict(stages=c12, level='model_checking'),
     'C13': dict(stages=simple_sel('C13', ['LawLocs']), level='model_checking'),
